@@ -634,6 +634,103 @@ def build_nested_close(p):
     return ws
 
 
+# ============================================================ declarations on continuation lines
+# The declared name stands on a continuation line, which may begin with the optional leading '&' at some indent: the
+# answer is the range of the name in the text of that line.
+def continued_decl_cases():
+    for lead in ("none", "amp", "amp_blanks", "amp_tight"):
+        for indent in (0, 2, 9):
+            for stmt in ("integer", "real_dim", "dummy"):
+                yield (lead, indent, stmt)
+
+
+def build_continued_decl(p):
+    lead, indent, stmt = p
+    ws = Workspace()
+    f = ws.file("cd.f90")
+    pre = " " * indent + {"none": "", "amp": "& ", "amp_blanks": "&     ", "amp_tight": "&"}[lead]
+    if stmt == "dummy":
+        f.add("subroutine cds(", U("qarg", "cds::qarg"), ", ", U("qthird", "cds::qthird"), ")")
+    else:
+        f.add("subroutine cds(qn)")
+    f.add("  implicit none")
+    if stmt != "dummy":
+        f.add("  integer :: qn")
+    head = {"integer": "  integer :: qfirst, &", "real_dim": "  real, dimension(3) :: qfirst, &", "dummy": "  integer, intent(in) :: &"}[stmt]
+    f.add(head)
+    name, ent = ("qarg", "cds::qarg") if stmt == "dummy" else ("qsecond", "cds::qsecond")
+    f.add(pre, D(name, ent), ", &")
+    f.add(pre, D("qthird", "cds::qthird"))
+    f.add("  print *, ", U(name, ent), ", ", U("qthird", "cds::qthird"))
+    f.add("end subroutine cds")
+    return ws
+
+
+# ============================================================ host association past a restricted USE
+# The inner scope has its own `use m, only: ...` that does not name x; its host accesses m without restriction (or
+# with an ONLY list naming x): x in the inner scope is m's x, through the host.
+def host_only_cases():
+    for inner_kind in ("internal_procedure", "module_procedure", "block"):
+        for inner_use in ("only_other", "only_none", "only_rename_other"):
+            for host_use in ("all", "only_x"):
+                for what in ("variable", "type_and_component"):
+                    yield (inner_kind, inner_use, host_use, what)
+
+
+def build_host_only(p):
+    inner_kind, inner_use, host_use, what = p
+    ws = Workspace()
+    m = ws.file("ho_lib.f90")
+    m.add("module holib")
+    m.add("  implicit none")
+    m.add("  integer :: ", D("hox", "holib::hox"))
+    m.add("  integer :: ", D("hoother", "holib::hoother"))
+    m.add("  type :: ", D("hot", "holib::hot"))
+    m.add("    integer :: ", D("hocomp", "holib::hot%hocomp"))
+    m.add("  end type hot")
+    m.add("end module holib")
+    f = ws.file("ho_user.f90")
+    inner = {"only_other": "use holib, only: hoother", "only_none": "use holib, only:", "only_rename_other": "use holib, only: horen => hoother"}[inner_use]
+    host = {"all": "use holib", "only_x": "use holib, only: hox, hot"}[host_use]
+
+    def body(ind):
+        if inner_kind != "block":
+            f.add(ind + inner)
+        if what == "variable":
+            f.add(ind, U("hox", "holib::hox"), " = ", U("hox", "holib::hox"), " + 1")
+        else:
+            f.add(ind + "type(", U("hot", "holib::hot"), ") :: holocal")
+            f.add(ind + "holocal%", U("hocomp", "holib::hot%hocomp"), " = 2")
+
+    if inner_kind == "module_procedure":
+        f.add("module houser")
+        f.add("  " + host)
+        f.add("  implicit none")
+        f.add("contains")
+        f.add("  subroutine horun()")
+        body("    ")
+        f.add("  end subroutine horun")
+        f.add("end module houser")
+    else:
+        f.add("subroutine hohost()")
+        f.add("  " + host)
+        f.add("  implicit none")
+        if inner_kind == "block":
+            f.add("  block")
+            f.add("    " + inner.replace("use holib", "use holib"))
+            body("    ")
+            f.add("  end block")
+            f.add("end subroutine hohost")
+        else:
+            f.add("  call hoinner()")
+            f.add("contains")
+            f.add("  subroutine hoinner()")
+            body("    ")
+            f.add("  end subroutine hoinner")
+            f.add("end subroutine hohost")
+    return ws
+
+
 # ============================================================ rename without ONLY
 # `use m, local => remote` (a rename list without ONLY): everything public of m is accessible, remote under the name local.
 def rename_all_cases():
@@ -676,7 +773,7 @@ def build_rename_all(p):
 
 
 BUILDERS = {"rename_without_only": build_rename_all, "nested_close": build_nested_close, "shadow": build_shadow, "usegraph": build_usegraph, "types": build_types, "include": build_include,
-            "types_files": build_types_files, "constructs": build_constructs}
+            "types_files": build_types_files, "constructs": build_constructs, "continued_decl": build_continued_decl, "host_only": build_host_only}
 
 
 # ================================================================== execution
@@ -839,6 +936,10 @@ def _features(fam, p):
                 "defaults": ",".join(d for (_, d) in mods), "decls": ",".join(str(d) for (d, _) in mods)}
     if fam == "shadow":
         return {"shadow": ",".join(str(x) for x in p)}
+    if fam == "continued_decl":
+        return {"lead": p[0], "indent": p[1], "stmt": p[2]}
+    if fam == "host_only":
+        return {"inner_kind": p[0], "inner_use": p[1], "host_use": p[2], "what": p[3]}
     if fam == "constructs":
         return {"selector": p[0], "where": p[1], "two_bindings": p[2]}
     if fam == "nested_close":
@@ -861,6 +962,10 @@ def jobs(quick):
         yield ("constructs", p)
     for p in nested_close_cases():
         yield ("nested_close", p)
+    for p in continued_decl_cases():
+        yield ("continued_decl", p)
+    for p in host_only_cases():
+        yield ("host_only", p)
     for p in usegraph_cases(2, reduced=0):
         yield ("usegraph", p)
     for p in usegraph_cases(3, reduced=(1 if quick else 2)):
